@@ -47,7 +47,6 @@ UNITS = {
   'um_i_c1': US_UNIT({'vp_thr_i': ['a'], 'vp_thr_c': ['b']}, unroll=1, multi=1),
   # skip list
   'sk_i_i': SK_UNIT({'vp_thr_ki': ['a', 'b']}),
-  'sk_i_i2': SK_UNIT({'vp_thr_ki': ['a', 'b']}, unroll=2),
   'sk_i_f': SK_UNIT({'vp_thr_ki': ['a'], 'vp_thr_kf': ['b']}),
   'sk_i_t': SK_UNIT({'vp_thr_ki': ['a'], 'vp_thr_kt': ['b']}),
   'skH_i_i': SK_UNIT({'vp_thr_ki': ['a', 'b']}, head_inline=True),
@@ -112,16 +111,14 @@ HARNESSES = [
   dict(name='umset_count_2t', unit='um_i_c1', harness='h_uset.c', tiers=['thorough'], defines=dict(USD, MULTI=1, TA='i', TB='c', NV=3, ND=1),
        scenarios=[{'KA0': 3, 'KB0': 3}], cbmc=US_CBMC(1), timeout=2400,
        desc='multiset insert(k) || count(k): count within [completed, started] inserts', bounds=B()),
-  dict(name='skip_ins_2t', unit='sk_i_i', harness='h_skip.c', defines=dict(ROUNDS=1, TA='ki', TB='ki', MAXH=3, NPRE=1, PRE0=4, PH0=2, NN=4),
-       scenarios_quick=[dict(KA0=6, KB0=6, HA=2, HB=1), dict(KA0=6, KB0=7, HA=2, HB=2)],
-       scenarios=[dict(KA0=6, KB0=6, HA=1, HB=1), dict(KA0=6, KB0=6, HA=2, HB=1), dict(KA0=6, KB0=7, HA=2, HB=2), dict(KA0=6, KB0=7, HA=3, HB=3), dict(KA0=2, KB0=3, HA=3, HB=2),
-                  dict(KA0=2, KB0=6, HA=3, HB=3), dict(KA0=4, KB0=4, HA=3, HB=1)],
-       cbmc=SK_CBMC, timeout=1200, thorough_override=dict(unit='sk_i_i2', timeout=3000),
+  dict(name='skip_ins_2t', unit='sk_i_i', harness='h_skip.c', defines=dict(ROUNDS=1, TA='ki', TB='ki', MAXH=3, NPRE=1, PRE0=4, NN=4),
+       scenarios_quick=[dict(PH0=1, KA0=6, KB0=6, HA=1, HB=1), dict(PH0=1, KA0=6, KB0=7, HA=1, HB=1), dict(PH0=2, KA0=6, KB0=7, HA=2, HB=2)],
+       scenarios=[dict(PH0=1, KA0=6, KB0=6, HA=1, HB=1), dict(PH0=1, KA0=6, KB0=7, HA=1, HB=1), dict(PH0=2, KA0=6, KB0=6, HA=2, HB=1), dict(PH0=2, KA0=6, KB0=7, HA=2, HB=2),
+                  dict(PH0=2, KA0=6, KB0=7, HA=3, HB=3), dict(PH0=2, KA0=2, KB0=3, HA=3, HB=2), dict(PH0=3, KA0=2, KB0=6, HA=3, HB=3), dict(PH0=2, KA0=4, KB0=4, HA=3, HB=1)],
+       cbmc=SK_CBMC, timeout=1200, thorough_override=dict(defines=dict(ROUNDS=2, TA='ki', TB='ki', MAXH=3, NPRE=1, PRE0=4, NN=4), timeout=3600, mem_gb=16),
        desc='concurrent_set<int> (real concurrent_skip_list with a stub level generator, max_level 3): insert || insert through internal_insert_node/'
             'fill_prev_curr_arrays/internal_find_position, node heights per scenario: level 0 strictly sorted, one winner, every level links exactly the nodes of that height',
-       bounds=B(max_level=3, heights='concrete per scenario', thorough='loop_unroll 2')),
-  dict(name='skx_a', unit='sk_i_i2', harness='h_skip.c', defines=dict(ROUNDS=1, TA='ki', TB='ki', MAXH=3, NPRE=1, PRE0=4, PH0=2, NN=4), scenarios=[dict(KA0=6, KB0=7, HA=2, HB=2)], cbmc=SK_CBMC, timeout=1500, desc='', bounds={}),
-  dict(name='skx_b', unit='sk_i_i', harness='h_skip.c', defines=dict(ROUNDS=2, TA='ki', TB='ki', MAXH=3, NPRE=1, PRE0=4, PH0=2, NN=4), scenarios=[dict(KA0=6, KB0=7, HA=2, HB=2)], cbmc=SK_CBMC, timeout=1500, desc='', bounds={}),
+       bounds=B(max_level=3, heights='concrete per scenario (pre-state node and both new nodes)', thorough='free_rounds 2')),
   dict(name='skip_head_2t', unit='skH_i_i', harness='h_skip.c', defines=dict(ROUNDS=1, TA='ki', TB='ki', MAXH=3, NPRE=0, NN=4),
        scenarios=[dict(KA0=6, KB0=7, HA=1, HB=2)], tiers=['thorough'], cbmc=SK_CBMC, timeout=2400,
        desc='first two inserts into an empty container: create_head_if_necessary race (one head, loser freed)', bounds=B(max_level=3)),
@@ -136,6 +133,41 @@ HARNESSES = [
        scenarios=[dict(KA0=6, KB0=6, HA=2, HB=1), dict(KA0=6, KB0=6, HA=2, HB=2)], cbmc=SK_CBMC, timeout=2400,
        desc='concurrent_multiset: two inserts of a key that is already present: all three equal keys stay, adjacent, on every level', bounds=B(max_level=3)),
 ]
-OUTSIDE = []
-STUBS = []
-ASSUMPTIONS = []
+MANIFEST = dict(
+  level_text='Bounded model checking of the real container code. (1) Full 64-bit symbolic lemmas over the real split-order key arithmetic (reverse_bits, regular/dummy keys, '
+             'get_parent, bucket->segment mapping, growth step, level generator). (2) For 2 model threads (3 in one thorough harness) executing the real '
+             'concurrent_unordered_set/multiset insert/find/count/iteration, get_bucket/init_bucket/insert_dummy_node, the bucket table\'s lazy segment allocation, and the real '
+             'concurrent_skip_list insert/find/iteration (instantiated like concurrent_set/multiset<int> with a stub level generator, max_level 3): every interleaving, at '
+             'single-IR-memory-operation granularity, expressible in the stated number of scheduling rounds is decided by the SAT solver against a whole-structure oracle at '
+             'quiescence (raw list walk: sorted order keys / comparator order on every level, one dummy per bucket registered in the table, content == pre-state + successful inserts, '
+             'no duplicate in unique containers, one winner, allocation balance) and per-operation oracles (find after a returned insert finds the key; a traversal sees every earlier '
+             'element exactly once and nothing twice).',
+  level_note='Keys, hash functions, node heights and the operations of each thread are concrete per scenario (enumerated); the schedule is symbolic. Small objects: <= 5 keys, <= 4 buckets, '
+             'max_level 3. Thread-private helpers (node construction/destruction) and, in the "core" harnesses, bucket initialisation execute atomically; init_bucket\'s recursion on the '
+             'parent bucket is not followed (parents are initialised in the pre-state; the recursive call is asserted unreachable). segment_table::operator[] is cut to its contract in the '
+             'list harnesses and checked on its own in segtab_2t. Sequential consistency. Trusted: clang-14 IR, tools/ir2c.py (+ tools/ptratom.py, a semantics-preserving IR retyping), cbmc.',
+)
+OUTSIDE = [
+  'more than 2 threads (3 in uset_ins_3t, thorough) / more than 2 operations per thread; more scheduling rounds than stated per harness',
+  'concurrent_unordered_map/multimap and concurrent_map/multimap instantiations (same base classes, other traits), emplace/insert(node_handle)/hint overloads, merge',
+  'bucket tables beyond 4 buckets and more than one doubling; init_bucket recursion over uninitialised ancestors executed concurrently (only parent-initialised scenarios)',
+  'skip lists with max_level > 3 and the real 32-level generator together with the list (its arithmetic is checked separately in sokey_arith PART 7)',
+  'interleavings inside node construction/destruction and inside core-harness bucket initialisation (executed atomically there)',
+  'unsafe_* operations, erase/extract, rehash/reserve/clear, copy/move/swap, ranges (const_range_type splitting)',
+  'allocation failure / exceptions thrown by user hash, comparator or element constructors',
+  'weak memory models (TSO and weaker); the acquire/release annotations are not exercised',
+]
+STUBS = [
+  'user hash functor: pure scenario-defined function of the key (identity, constant, 16*k, bit-63 alias)',
+  'user allocator (template parameter): fresh, never reused, suitably typed storage from harness pools; freed nodes are poisoned; never fails',
+  'tbb::detail::machine_reverse_bits<size_t>: cut in thread units to its contract (exact 64-bit reversal), which sokey_arith PART 1 decides for the real function',
+  'segment_table::internal_subscript<true> (my_segments[i]): cut in the list units to its contract (stable distinct slot per index, initially nullptr); the real code is checked in segtab_2t',
+  'skip-list random level generator (template parameter of set_traits): returns the height the scenario prescribes; max_level 3',
+  'enumerable_thread_specific<minstd_rand>::local() (sokey_arith PART 7): an engine in an arbitrary state in [1, 2^31-2]',
+  'r1::throw_exception: reaching it is a failure (no allocation failure is injected)',
+]
+ASSUMPTIONS = [
+  'parent buckets of the buckets initialised concurrently are already initialised (established by the sequential pre-state; the deeper recursive call is asserted unreachable)',
+  'hash and comparator are pure and consistent (documented requirement on user functors)',
+  'bucket count < 2^63 (dummy keys lose bit 63 of the bucket index)',
+]
